@@ -44,6 +44,21 @@ pub fn run(tier: Tier) -> Report {
                             n1 += 1;
                             let back = BoundingBox::try_from(&u);
                             let case = json!({"part":"roundtrip","ltwh":[l*sl,t*st,w,h]});
+                            // the other constructors and conversions of the same box agree; a rotated box has no ltwh form
+                            let u2 = Universal2DBox::ltwh(l * sl, t * st, w, h);
+                            let u3 = Universal2DBox::ltwh_with_confidence(l * sl, t * st, w, h, 0.5);
+                            let same5 = |x: &Universal2DBox, y: &Universal2DBox| x.xc == y.xc && x.yc == y.yc && x.angle == y.angle && x.aspect == y.aspect && x.height == y.height;
+                            if !same5(&u, &u2) || !same5(&u, &u3) || u2.confidence != 1.0 || u3.confidence != 0.5 || u.angle.is_some() {
+                                rep.violation(Violation { key: "roundtrip/constructors-differ".into(), what: format!("as_xyaah {u:?}, ltwh {u2:?}, ltwh_with_confidence {u3:?}"), replay: case.clone() });
+                            }
+                            if BoundingBox::try_from(u.clone()).ok().map(|x| (x.left, x.top, x.width, x.height)) != back.as_ref().ok().map(|x| (x.left, x.top, x.width, x.height)) {
+                                rep.violation(Violation { key: "roundtrip/try_from-by-value-differs".into(), what: format!("{u:?}"), replay: case.clone() });
+                            }
+                            for a in [0.0f32, 0.3, -1.0] {
+                                if BoundingBox::try_from(&u.clone().rotate(a)).is_ok() {
+                                    rep.violation(Violation { key: "roundtrip/rotated-box-converted".into(), what: format!("a box with angle Some({a}) was converted to left-top-width-height"), replay: case.clone() });
+                                }
+                            }
                             match back {
                                 Err(e) => rep.violation(Violation {
                                     key: "roundtrip/try_from-err".into(),
